@@ -45,7 +45,10 @@ PART["C05"] = {
     "rule": W1 + "with denser fault scripts (partitions, blackouts, isolation, stops of up to all-but-one honest node, message loss) and catch-up period 0/1 s < period; after the script "
             "everything is healed and the oracle counts logical 1-second clock steps until every running honest node's head equals the round of its own clock: bound B = 3*missed + 2n + 10 + 2*period steps "
             "(re-tried once more slowly before a verdict), then 4 further periods must each produce their round on all nodes, and every restarted node must have emitted a partial for one of the "
-            "last 3 rounds. non-trivial = the network was at least 2 rounds behind when the faults stopped; distinct = distinct scenario",
+            "last 3 rounds. Every third case (period 10 s, catch-up 1 s) also times the catch-up RATE event by event: one victim node's own aggregation is parked briefly (hook aggregator.beforeput) so that a "
+            "peer's sync stream stores the round first; whenever the victim, behind its clock, has run its own aggregation of round r, its partial for r+1 must leave less than catch-up+5 s later on its own "
+            "fake clock (instants taken only while the clocks move in 1 s steps, each step paced on that emission; skipped when a step took > 1 s of real time). "
+            "non-trivial = the network was at least 2 rounds behind when the faults stopped; distinct = distinct scenario",
     "assumptions": ["liveness is decided as bounded progress in logical steps, never by wall-clock; quiescence detection only paces the clock driver"],
 }
 PART["C11"] = {
@@ -53,7 +56,7 @@ PART["C11"] = {
     "rule": "the real callbackStore stack (base store -> scheme store -> append store -> callback store, as newChainStore builds it) on bolt-trimmed / bolt-untrimmed / memdb (ring full or not), "
             "chained and unchained, pre-filled, served by the real SyncChain to consumers whose Send is gated; chosen interleavings: quiet, appends while the scan is parked in its k-th Send, appends while "
             "the stream is parked at the scan->live hand-over (hook syncchain.handover), both, two concurrent streams, reconnect from the same address (replacement), stall in the live phase with a burst larger "
-            "than the callback queue; start rounds 0 / head / window start / middle / beyond the head (a refusal is legal; an accepted stream owes the requested round first); oracle: delivered rounds = from, from+1, ... store head at quiescence, bytes equal to the stored beacons. non-trivial = at least one append landed inside the catch-up phase "
+            "than the callback queue; start rounds 0 / head / window start / middle / beyond the head (a refusal is legal; an accepted stream owes the requested round first); oracle: delivered rounds = from, from+1, ... store head at quiescence, signature AND previous signature equal to what the store holds afterwards (beacons are appended with a previous signature on every scheme, as the aggregator does). non-trivial = at least one append landed inside the catch-up phase "
             "(or quiet/two-stream baseline); distinct = distinct case parameters",
     "assumptions": ["streams that ended (replaced / errored) are exempt from completeness, not from order"],
     "race_anchors": ["callbackStore"],
